@@ -114,6 +114,14 @@ func (n *node) cancel(err error) {
 func WithTimeout(parent Context, d time.Duration) (Context, CancelFunc) {
 	ctx, cancel := WithCancel(parent)
 	n := ctx.(nodeCtx).node
+	if vs.Cur() == nil {
+		// transformed code running outside a controlled execution (the sequential checks): real time
+		rt := time.AfterFunc(d, func() { n.cancel(context.DeadlineExceeded) })
+		return ctx, func() {
+			rt.Stop()
+			cancel()
+		}
+	}
 	t := vs.AfterFunc(d, func() { n.cancel(context.DeadlineExceeded) })
 	return ctx, func() {
 		t.Stop()
@@ -122,5 +130,8 @@ func WithTimeout(parent Context, d time.Duration) (Context, CancelFunc) {
 }
 
 func WithDeadline(parent Context, deadline time.Time) (Context, CancelFunc) {
+	if vs.Cur() == nil {
+		return WithTimeout(parent, time.Until(deadline))
+	}
 	return WithTimeout(parent, deadline.Sub(vs.Now()))
 }
